@@ -23,7 +23,7 @@ ASSUMPTIONS = ['rounding scaled by conditioning = C*(eps*m*max_j|w_kj| + D_k) pe
                'exact weights derived from the definition of the Lagrange basis in Fraction arithmetic']
 C_ROW = 256.0
 C_POLY = 64.0
-KINDS = ['uniform', 'random', 'clustered', 'permuted', 'onesided', 'geometric', 'integer', 'offset', 'pyint_big', 'nearly_uniform', 'symmetric_any_order']
+KINDS = ['uniform', 'random', 'clustered', 'permuted', 'onesided', 'geometric', 'integer', 'offset', 'pyint_big', 'nearly_uniform', 'symmetric_any_order', 'tiny_scale']
 
 
 def setup(ctx, mon):
@@ -66,6 +66,13 @@ def make_nodes(rng, kind, m):
             keep = int(rng.integers(0, m))
             move[np.arange(m) != keep] = 0.0
         x = x + move
+    elif kind == 'tiny_scale':
+        # an ordinary non-uniform stencil in units of 1e-14 .. 1e-30 (and, less often, 1e+14 .. 1e+30): weights know no absolute scale
+        m = min(m, 6)
+        unit = 10.0 ** (rng.uniform(-30, -14) if rng.random() < 0.75 else rng.uniform(14, 30))
+        x = unit * np.cumsum(rng.choice([1.0, 1.5, 0.5, 2.0], size=m)) * float(rng.choice([-1.0, 1.0]))
+        if rng.random() < 0.4:
+            x = rng.permutation(x)
     elif kind == 'symmetric_any_order':
         # nodes placed exactly symmetrically about a centre (which cases() then uses as x0), listed in any order: by distance
         # from the centre, shuffled, descending - the weights belong to the nodes, not to their positions in the list
@@ -104,6 +111,7 @@ def cases(rng, tier, shard, nshards):
         x = make_nodes(rng, kind, m)
         if x is None:
             continue
+        m = len(x)
         lo, hi = x.min(), x.max()
         place = ['inside', 'outside', 'node', 'far'][int(rng.integers(0, 4))]
         if place == 'inside':
